@@ -1529,11 +1529,7 @@ class AdvancedTag(object):
             else:
                 ret.append(block)
 
-        try:
-            return ''.join(ret)
-        except:
-            import pdb; pdb.set_trace()
-            return ''.join(ret)
+        return ''.join(ret)
 
     @property
     def outerHTML(self):
